@@ -1,4 +1,177 @@
+/-
+  C01 — xoshiro/xoroshiro/SplitMix64 output equals the Blackman–Vigna reference.
+  For each of the 15 generators: from *every* state one model step returns the reference output
+  word and reaches the reference successor state (Spec/Vigna.lean: C unsigned arithmetic over ℕ),
+  hence every stream position agrees (induction), and `from_seed` of a seed that is not all zero
+  starts from the state whose words are the little-endian words of the seed.
+-/
 import Rngs.Model.Xoshiro
+import Rngs.Lib.NatSem
 namespace Rngs.C01
-theorem placeholder : True := trivial
+open Rngs Rngs.Spec Rngs.NatSem
+
+/-! abstraction: model state ↦ reference state -/
+def abs2 {w} (s : S2 w) : Vigna.St2 := ⟨s.s0.toNat, s.s1.toNat⟩
+def abs4 {w} (s : S4 w) : Vigna.St4 := ⟨s.s0.toNat, s.s1.toNat, s.s2.toNat, s.s3.toNat⟩
+def abs8 (s : S8) : Vigna.St8 :=
+  ⟨s.s0.toNat, s.s1.toNat, s.s2.toNat, s.s3.toNat, s.s4.toNat, s.s5.toNat, s.s6.toNat, s.s7.toNat⟩
+
+/-- the model's native output stream from a state -/
+def mstream {σ : Type} {w : Nat} (next : σ → BitVec w × σ) : σ → Nat → BitVec w
+  | s, 0 => (next s).1
+  | s, k + 1 => mstream next (next s).2 k
+
+/-- one-step agreement lifts to every stream position -/
+theorem stream_of_step {σ τ : Type} {w : Nat} (next : σ → BitVec w × σ) (ref : τ → Nat × τ) (abs : σ → τ)
+    (h : ∀ s, ((next s).1.toNat, abs (next s).2) = ref (abs s)) (s : σ) (k : Nat) :
+    (mstream next s k).toNat = Vigna.stream ref (abs s) k := by
+  induction k generalizing s with
+  | zero => simp only [mstream, Vigna.stream]; exact congrArg Prod.fst (h s)
+  | succ k ih =>
+    simp only [mstream, Vigna.stream]
+    rw [ih]
+    exact congrArg (fun p => Vigna.stream ref p.2 k) (h s)
+
+macro "c01_step" : tactic => `(tactic| (
+  simp (disch := decide) only [
+    Xoroshiro64Star.nextU32, Xoroshiro64StarStar.nextU32, Xoroshiro128Plus.nextU64, Xoroshiro128PlusPlus.nextU64,
+    Xoroshiro128StarStar.nextU64, Xoshiro128Plus.nextU32, Xoshiro128PlusPlus.nextU32, Xoshiro128StarStar.nextU32,
+    Xoshiro256Plus.nextU64, Xoshiro256PlusPlus.nextU64, Xoshiro256StarStar.nextU64, Xoshiro512Plus.nextU64,
+    Xoshiro512PlusPlus.nextU64, Xoshiro512StarStar.nextU64,
+    Vigna.xoroshiro64star, Vigna.xoroshiro64starstar, Vigna.xoroshiro128plus, Vigna.xoroshiro128plusplus,
+    Vigna.xoroshiro128starstar, Vigna.xoshiro128plus, Vigna.xoshiro128plusplus, Vigna.xoshiro128starstar,
+    Vigna.xoshiro256plus, Vigna.xoshiro256plusplus, Vigna.xoshiro256starstar, Vigna.xoshiro512plus,
+    Vigna.xoshiro512plusplus, Vigna.xoshiro512starstar,
+    abs2, abs4, abs8, xoroshiroU32, xoroshiroU64, xoroshiroU64pp, xoshiroU32, xoshiroU64, xoshiroLarge,
+    starstarU32, starstarU64, plusplusU32, plusplusU64,
+    Vigna.xoroshiro, Vigna.xoshiro, Vigna.xoshiro512,
+    toNat_xor, toNat_shl, toNat_mul, toNat_add, toNat_rotl]
+  <;> rfl))
+
+/-! ### one step from every state -/
+theorem Xoroshiro64Star_step (s : S2 32) :
+    ((Xoroshiro64Star.nextU32 s).1.toNat, abs2 (Xoroshiro64Star.nextU32 s).2) = Vigna.xoroshiro64star (abs2 s) := by c01_step
+theorem Xoroshiro64StarStar_step (s : S2 32) :
+    ((Xoroshiro64StarStar.nextU32 s).1.toNat, abs2 (Xoroshiro64StarStar.nextU32 s).2) = Vigna.xoroshiro64starstar (abs2 s) := by c01_step
+theorem Xoroshiro128Plus_step (s : S2 64) :
+    ((Xoroshiro128Plus.nextU64 s).1.toNat, abs2 (Xoroshiro128Plus.nextU64 s).2) = Vigna.xoroshiro128plus (abs2 s) := by c01_step
+theorem Xoroshiro128PlusPlus_step (s : S2 64) :
+    ((Xoroshiro128PlusPlus.nextU64 s).1.toNat, abs2 (Xoroshiro128PlusPlus.nextU64 s).2) = Vigna.xoroshiro128plusplus (abs2 s) := by c01_step
+theorem Xoroshiro128StarStar_step (s : S2 64) :
+    ((Xoroshiro128StarStar.nextU64 s).1.toNat, abs2 (Xoroshiro128StarStar.nextU64 s).2) = Vigna.xoroshiro128starstar (abs2 s) := by c01_step
+theorem Xoshiro128Plus_step (s : S4 32) :
+    ((Xoshiro128Plus.nextU32 s).1.toNat, abs4 (Xoshiro128Plus.nextU32 s).2) = Vigna.xoshiro128plus (abs4 s) := by c01_step
+theorem Xoshiro128PlusPlus_step (s : S4 32) :
+    ((Xoshiro128PlusPlus.nextU32 s).1.toNat, abs4 (Xoshiro128PlusPlus.nextU32 s).2) = Vigna.xoshiro128plusplus (abs4 s) := by c01_step
+theorem Xoshiro128StarStar_step (s : S4 32) :
+    ((Xoshiro128StarStar.nextU32 s).1.toNat, abs4 (Xoshiro128StarStar.nextU32 s).2) = Vigna.xoshiro128starstar (abs4 s) := by c01_step
+theorem Xoshiro256Plus_step (s : S4 64) :
+    ((Xoshiro256Plus.nextU64 s).1.toNat, abs4 (Xoshiro256Plus.nextU64 s).2) = Vigna.xoshiro256plus (abs4 s) := by c01_step
+theorem Xoshiro256PlusPlus_step (s : S4 64) :
+    ((Xoshiro256PlusPlus.nextU64 s).1.toNat, abs4 (Xoshiro256PlusPlus.nextU64 s).2) = Vigna.xoshiro256plusplus (abs4 s) := by c01_step
+theorem Xoshiro256StarStar_step (s : S4 64) :
+    ((Xoshiro256StarStar.nextU64 s).1.toNat, abs4 (Xoshiro256StarStar.nextU64 s).2) = Vigna.xoshiro256starstar (abs4 s) := by c01_step
+theorem Xoshiro512Plus_step (s : S8) :
+    ((Xoshiro512Plus.nextU64 s).1.toNat, abs8 (Xoshiro512Plus.nextU64 s).2) = Vigna.xoshiro512plus (abs8 s) := by c01_step
+theorem Xoshiro512PlusPlus_step (s : S8) :
+    ((Xoshiro512PlusPlus.nextU64 s).1.toNat, abs8 (Xoshiro512PlusPlus.nextU64 s).2) = Vigna.xoshiro512plusplus (abs8 s) := by
+  -- the Rust computes `s[2] + s[0]`, the C reference `s[0] + s[2]`
+  have hc : Vigna.add 64 s.s2.toNat s.s0.toNat = Vigna.add 64 s.s0.toNat s.s2.toNat := by
+    simp only [Vigna.add, Nat.add_comm]
+  simp (disch := decide) only [Xoshiro512PlusPlus.nextU64, Vigna.xoshiro512plusplus, abs8, xoshiroLarge, plusplusU64,
+    Vigna.xoshiro512, toNat_xor, toNat_shl, toNat_add, toNat_rotl, hc]
+theorem Xoshiro512StarStar_step (s : S8) :
+    ((Xoshiro512StarStar.nextU64 s).1.toNat, abs8 (Xoshiro512StarStar.nextU64 s).2) = Vigna.xoshiro512starstar (abs8 s) := by c01_step
+
+theorem shr32_mul_lt (a b : Nat) : Vigna.shr (Vigna.mul 64 a b) 32 < 2 ^ 32 := by
+  unfold Vigna.shr Vigna.mul
+  have h : a * b % 2 ^ 64 < 2 ^ 64 := Nat.mod_lt _ (by decide)
+  omega
+
+/-- SplitMix64: `next_u64` is splitmix64.c -/
+theorem SplitMix64_step_u64 (x : U64) :
+    ((SplitMix64.nextU64 x).1.toNat, (SplitMix64.nextU64 x).2.toNat) = Vigna.splitmix64 x.toNat := by
+  simp only [SplitMix64.nextU64, SplitMix64.PHI, Vigna.splitmix64, toNat_xor, toNat_shr, toNat_mul, toNat_add,
+    BitVec.toNat_ofNat, Nat.reducePow, Nat.reduceMod]
+
+/-- SplitMix64: `next_u32` is the dsiutils Mix4 finaliser of the same counter step -/
+theorem SplitMix64_step_u32 (x : U64) :
+    ((SplitMix64.nextU32 x).1.toNat, (SplitMix64.nextU32 x).2.toNat) = Vigna.splitmix64Mix4 x.toNat := by
+  simp only [SplitMix64.nextU32, SplitMix64.PHI, Vigna.splitmix64Mix4, toNat_xor, toNat_shr, toNat_mul, toNat_add,
+    BitVec.toNat_setWidth, Nat.mod_eq_of_lt (shr32_mul_lt _ _), BitVec.toNat_ofNat, Nat.reducePow, Nat.reduceMod]
+
+/-! ### every stream position (induction over single steps) -/
+theorem Xoroshiro64Star_stream (s : S2 32) (k : Nat) :
+    (mstream Xoroshiro64Star.nextU32 s k).toNat = Vigna.stream Vigna.xoroshiro64star (abs2 s) k :=
+  stream_of_step _ _ abs2 Xoroshiro64Star_step s k
+theorem Xoroshiro64StarStar_stream (s : S2 32) (k : Nat) :
+    (mstream Xoroshiro64StarStar.nextU32 s k).toNat = Vigna.stream Vigna.xoroshiro64starstar (abs2 s) k :=
+  stream_of_step _ _ abs2 Xoroshiro64StarStar_step s k
+theorem Xoroshiro128Plus_stream (s : S2 64) (k : Nat) :
+    (mstream Xoroshiro128Plus.nextU64 s k).toNat = Vigna.stream Vigna.xoroshiro128plus (abs2 s) k :=
+  stream_of_step _ _ abs2 Xoroshiro128Plus_step s k
+theorem Xoroshiro128PlusPlus_stream (s : S2 64) (k : Nat) :
+    (mstream Xoroshiro128PlusPlus.nextU64 s k).toNat = Vigna.stream Vigna.xoroshiro128plusplus (abs2 s) k :=
+  stream_of_step _ _ abs2 Xoroshiro128PlusPlus_step s k
+theorem Xoroshiro128StarStar_stream (s : S2 64) (k : Nat) :
+    (mstream Xoroshiro128StarStar.nextU64 s k).toNat = Vigna.stream Vigna.xoroshiro128starstar (abs2 s) k :=
+  stream_of_step _ _ abs2 Xoroshiro128StarStar_step s k
+theorem Xoshiro128Plus_stream (s : S4 32) (k : Nat) :
+    (mstream Xoshiro128Plus.nextU32 s k).toNat = Vigna.stream Vigna.xoshiro128plus (abs4 s) k :=
+  stream_of_step _ _ abs4 Xoshiro128Plus_step s k
+theorem Xoshiro128PlusPlus_stream (s : S4 32) (k : Nat) :
+    (mstream Xoshiro128PlusPlus.nextU32 s k).toNat = Vigna.stream Vigna.xoshiro128plusplus (abs4 s) k :=
+  stream_of_step _ _ abs4 Xoshiro128PlusPlus_step s k
+theorem Xoshiro128StarStar_stream (s : S4 32) (k : Nat) :
+    (mstream Xoshiro128StarStar.nextU32 s k).toNat = Vigna.stream Vigna.xoshiro128starstar (abs4 s) k :=
+  stream_of_step _ _ abs4 Xoshiro128StarStar_step s k
+theorem Xoshiro256Plus_stream (s : S4 64) (k : Nat) :
+    (mstream Xoshiro256Plus.nextU64 s k).toNat = Vigna.stream Vigna.xoshiro256plus (abs4 s) k :=
+  stream_of_step _ _ abs4 Xoshiro256Plus_step s k
+theorem Xoshiro256PlusPlus_stream (s : S4 64) (k : Nat) :
+    (mstream Xoshiro256PlusPlus.nextU64 s k).toNat = Vigna.stream Vigna.xoshiro256plusplus (abs4 s) k :=
+  stream_of_step _ _ abs4 Xoshiro256PlusPlus_step s k
+theorem Xoshiro256StarStar_stream (s : S4 64) (k : Nat) :
+    (mstream Xoshiro256StarStar.nextU64 s k).toNat = Vigna.stream Vigna.xoshiro256starstar (abs4 s) k :=
+  stream_of_step _ _ abs4 Xoshiro256StarStar_step s k
+theorem Xoshiro512Plus_stream (s : S8) (k : Nat) :
+    (mstream Xoshiro512Plus.nextU64 s k).toNat = Vigna.stream Vigna.xoshiro512plus (abs8 s) k :=
+  stream_of_step _ _ abs8 Xoshiro512Plus_step s k
+theorem Xoshiro512PlusPlus_stream (s : S8) (k : Nat) :
+    (mstream Xoshiro512PlusPlus.nextU64 s k).toNat = Vigna.stream Vigna.xoshiro512plusplus (abs8 s) k :=
+  stream_of_step _ _ abs8 Xoshiro512PlusPlus_step s k
+theorem Xoshiro512StarStar_stream (s : S8) (k : Nat) :
+    (mstream Xoshiro512StarStar.nextU64 s k).toNat = Vigna.stream Vigna.xoshiro512starstar (abs8 s) k :=
+  stream_of_step _ _ abs8 Xoshiro512StarStar_step s k
+theorem SplitMix64_stream (x : U64) (k : Nat) :
+    (mstream SplitMix64.nextU64 x k).toNat = Vigna.stream Vigna.splitmix64 x.toNat k :=
+  stream_of_step _ _ BitVec.toNat SplitMix64_step_u64 x k
+theorem SplitMix64_stream_u32 (x : U64) (k : Nat) :
+    (mstream SplitMix64.nextU32 x k).toNat = Vigna.stream Vigna.splitmix64Mix4 x.toNat k :=
+  stream_of_step _ _ BitVec.toNat SplitMix64_step_u32 x k
+
+/-! ### `from_seed`: a seed that is not all zero is used verbatim (little-endian words) -/
+theorem fromSeed_verbatim {σ : Type} (g : XoGen σ) (seed : List U8) (h : isAllZero seed = false) :
+    g.fromSeed? seed = some (g.decode seed) := by
+  simp [XoGen.fromSeed?, XoGen.FUEL, XoGen.fromSeedFuel, h]
+
+/-- SplitMix64: `from_seed` reads the counter little-endian, for every seed -/
+theorem SplitMix64_fromSeed (seed : List U8) : SplitMix64.fromSeed seed = le64At seed 0 := rfl
+
+/-- the decoders read the little-endian words of the seed in order -/
+theorem decode_words :
+    (∀ seed, S2.decode32 seed = ⟨le32At seed 0, le32At seed 1⟩) ∧
+    (∀ seed, S2.decode64 seed = ⟨le64At seed 0, le64At seed 1⟩) ∧
+    (∀ seed, S4.decode32 seed = ⟨le32At seed 0, le32At seed 1, le32At seed 2, le32At seed 3⟩) ∧
+    (∀ seed, S4.decode64 seed = ⟨le64At seed 0, le64At seed 1, le64At seed 2, le64At seed 3⟩) ∧
+    (∀ seed, S8.decode seed = ⟨le64At seed 0, le64At seed 1, le64At seed 2, le64At seed 3,
+                               le64At seed 4, le64At seed 5, le64At seed 6, le64At seed 7⟩) :=
+  ⟨fun _ => rfl, fun _ => rfl, fun _ => rfl, fun _ => rfl, fun _ => rfl⟩
+
+/-- non-vacuity: a non-zero seed exists and the reference is anchored to the published test
+    vector of xoroshiro64star.c used in the crate (seed words 1, 2 → 2654435771, 327208753). -/
+example : isAllZero [1, 0, 0, 0, 2, 0, 0, 0] = false := by decide
+example : (Vigna.stream Vigna.xoroshiro64star ⟨1, 2⟩ 0, Vigna.stream Vigna.xoroshiro64star ⟨1, 2⟩ 1)
+    = (2654435771, 327208753) := by decide
+
 end Rngs.C01
